@@ -387,6 +387,40 @@ def replay_known(ctx):
             ctx.notes.append("a stored known-finding example no longer fails: %r" % doc)
 
 
+def bare_block_parser(ctx, n):
+    """BlockParser used directly (the documented way to reuse the block pass) on a source that was NOT normalised: no final line end, so the
+    last line -- a closing fence, the last line of an unclosed fence, an indented code line -- ends at the end of the subject."""
+    import mistune
+    md = mistune.create_markdown(renderer=None)
+    k = 0
+    for _ in range(n):
+        ch = ctx.rng.choice(["`", "~"]); ln = ctx.rng.randint(3, 5)
+        body_lines = [ctx.rng.choice(LINE_BITS) for _ in range(ctx.rng.randint(0, 4))]
+        body_lines = [l for l in body_lines if not (l.strip().startswith(ch * 3))]
+        body = "".join(l + "\n" for l in body_lines)
+        kind = ctx.rng.choice(["closed", "unclosed", "indented"])
+        if kind == "closed":
+            src, want = ch * ln + "\n" + body + ch * ln, body
+        elif kind == "unclosed":
+            last = ctx.rng.choice(["tail", "x  y", "&amp;"])
+            src, want = ch * ln + "\n" + body + last, body + last
+        else:
+            lines = [l for l in body_lines if l.strip()] or ["code"]
+            src, want = "".join("    " + l + "\n" for l in lines[:-1]) + "    " + lines[-1], "\n".join(lines)
+        st = md.block.state_cls()
+        st.process(src)
+        try:
+            md.block.parse(st)
+        except Exception:
+            continue
+        k += 1
+        codes = [t for t in st.tokens if t["type"] == "block_code"]
+        got = codes[0]["raw"] if codes else None
+        if got is None or got.rstrip("\n") != want.rstrip("\n") or (kind == "closed" and got != want):
+            ctx.fail("verbatim:block-parser-unterminated-source:" + kind, "BlockParser.parse on %r (no final line end): code %r, expected %r" % (src, got, want), {"doc": src, "kind": "bare-" + kind, "expected": want, "got": got})
+    return k
+
+
 def run(ctx):
     ctx.broken += common.proof_stage(ctx, THEOREMS)
     replay_known(ctx)
@@ -398,6 +432,7 @@ def run(ctx):
     common.model_tie(ctx, tdocs, "core", "doc")
     n = oracle(ctx, 6000 if ctx.quick() else 80000)
     n += extra_cases(ctx, 400 if ctx.quick() else 4000)
+    n += bare_block_parser(ctx, 300 if ctx.quick() else 4000)
     if ctx.broken and not [f for f in ctx.failures if not ctx.is_known(f["signature"])]:
         ctx.notes.append("search mode entered")
         n += oracle(ctx, 60000)
